@@ -324,7 +324,9 @@ func c17Case(run *ev.Run, id int, verbose bool) {
 		for _, l := range errLines {
 			if strings.HasPrefix(l, "error: "+f.name+": ") {
 				n++
-				if strings.HasSuffix(l, ": break") || strings.Contains(l, "c17rt") {
+				// (": false" / ": null": the error(false) / error(null) programs; missing here at first, a harness
+				// flaw the thorough tier found in slurp mode, where the runtime error carries the last file name)
+				if strings.HasSuffix(l, ": break") || strings.Contains(l, "c17rt") || strings.HasSuffix(l, ": false") || strings.HasSuffix(l, ": null") {
 					rt++
 				}
 			}
